@@ -252,6 +252,14 @@ impl<I: Ip> TorrentMap<I> {
     }
 }
 
+#[cfg(feature = "verif-hooks")]
+impl<I: Ip> TorrentMap<I> {
+    /// Verification hook: number of stored torrents
+    pub fn verif_num_torrents(&self) -> usize {
+        self.torrents.len()
+    }
+}
+
 pub enum TorrentData<I: Ip> {
     Small(SmallPeerMap<I>),
     Large(LargePeerMap<I>),
